@@ -6,6 +6,8 @@ toolchain go1.23.5
 
 require (
 	github.com/eclipse/paho.mqtt.golang v1.4.1
+	github.com/go-redis/redis/v8 v8.11.5
+	github.com/go-redsync/redsync/v4 v4.5.1
 	github.com/orda-io/orda v0.0.0
 	github.com/orda-io/orda/client v0.0.0
 	github.com/orda-io/orda/server v0.0.0
@@ -21,8 +23,6 @@ require (
 	github.com/cespare/xxhash/v2 v2.1.2 // indirect
 	github.com/dgryski/go-rendezvous v0.0.0-20200823014737-9f7001d12a5f // indirect
 	github.com/fatih/color v1.13.0 // indirect
-	github.com/go-redis/redis/v8 v8.11.5 // indirect
-	github.com/go-redsync/redsync/v4 v4.5.1 // indirect
 	github.com/golang/protobuf v1.5.2 // indirect
 	github.com/golang/snappy v0.0.4 // indirect
 	github.com/gorilla/websocket v1.5.0 // indirect
